@@ -128,7 +128,18 @@ def concatenated_read_data(rep, idx, c, L, field, W, whole):
         rep.unk("C11.3", site, what, "element.r_data has several whole-vector drivers or a guarded one")
         return None
     d_ = whole[0]
+    def some_readable_flag(e):
+        """a Python flag that starts False and is set True in iterations where `<field>.port.access.readable()` holds"""
+        if e[0] == 'final' and e[1] in c.t.folds:
+            F_ = c.t.folds[e[1]]
+            upd = c.norm(F_.update) if F_.update is not None else None
+            return c.norm(F_.init) == ('const', False) and upd is not None and upd[0] == 'phi' and \
+                all(x[1][0] == 'attr' and x[1][2] == 'readable' for x in ir.walk(upd[1]) if x[0] == 'call') and \
+                {upd[2], upd[3]} == {('const', True), ('carry', e[1])}
+        return False
     for fr in d_.gen:
+        if fr[0] == 'pyif' and some_readable_flag(c.norm(fr[1])):
+            continue
         if fr[0] == 'for' or (fr[0] == 'pyif' and not all(x[1][0] == 'attr' and x[1][2] == 'readable' for x in ir.walk(c.norm(fr[1]))
                                                     if x[0] == 'call')):
             rep.unk("C11.3", site, what, f"the assignment is guarded by {ir.show(c.norm(fr[1]))[:80] if fr[0] == 'pyif' else 'a loop'}")
@@ -155,6 +166,44 @@ def concatenated_read_data(rep, idx, c, L, field, W, whole):
         else:
             other.append((c.norm(v), ln))
     if other or len(yes) != 1 or len(no) != 1:
+        # how many parts does a field contribute, as a function of (readable, writable)?  Every field must contribute exactly one.
+        wr = c.norm(ir.parse("field.port.access.writable()", {"field": field}))
+        counts = {}
+        decided = True
+        for rv in (False, True):
+            for wv in (False, True):
+                n_ = 0
+                for v, gen, ln in la.items:
+                    hold = True
+                    for fr in gen:
+                        if fr[0] != 'pyif':
+                            continue
+                        cn = c.norm(fr[1])
+                        pol = fr[2][0] if isinstance(fr[2], tuple) else fr[2]
+                        pos, p_ = ir.split_neg(cn)
+                        if pos == rd:
+                            hold = hold and ((rv == p_) == bool(pol))
+                        elif pos == wr:
+                            hold = hold and ((wv == p_) == bool(pol))
+                        else:
+                            decided = False
+                    if not any(fr[0] == 'for' and fr[1] == L.id for fr in gen):
+                        decided = False
+                    if hold:
+                        vv = c.norm(v)
+                        n_ += 1
+                        if vv[0] == 'phi' and vv[1] not in (rd, wr):
+                            decided = False
+                counts[(rv, wv)] = n_
+        if decided and any(n_ != 1 for n_ in counts.values()):
+            def nm(k):
+                return ("readable" if k[0] else "not readable") + " and " + ("writable" if k[1] else "not writable")
+            bad_k = sorted(k for k, n_ in counts.items() if n_ != 1)
+            rep.bad("C11.3", site, "every field contributes exactly one part to the concatenation of element.r_data",
+                    "; ".join(f"a field that is {nm(k)} contributes {counts[k]} part(s)" for k in bad_k) +
+                    ": the parts after it sit at another position than the field's running offset (reserved fields are neither "
+                    "readable nor writable and still occupy their bits)", line=la.items[0][2] if la.items else None)
+            return None
         rep.unk("C11.3", site, what, f"parts are appended in {len(yes)} readable / {len(no)} non-readable / {len(other)} other place(s); the rule "
                 "needs exactly one part per field on each side of `field.port.access.readable()`")
         return None
